@@ -13,8 +13,9 @@ CONSTANTS
   DPM = 2
   Backends <- AllBackends
   Faults <- BothFaults
+  StoreOnce = FALSE
   Ops <- AllOps
-  Mismatch = TRUE
+  Mismatch = FALSE
   NameFilterSound = FALSE
   FileChallengeFilter = FALSE
   StoreByRaceId = FALSE
